@@ -71,13 +71,13 @@ def run(tier, seed):
     rng = random.Random(seed * 1000003 + 19)
     thorough = tier == "thorough"
     tmp = H.subdir("c19files")
-    mets = c07.all_metrics() if thorough else ["euclidean", "log_squared_euclidean", "canberra", "cosine", "chebyshev", "chi_squared", "gaussian", "hassanat", "manhattan", "jensen_shannon"]
+    mets = c07.all_metrics() if thorough else ["euclidean", "log_squared_euclidean", "canberra", "cosine", "chebyshev", "chi_squared", "gaussian", "hassanat", "manhattan", "jensen_shannon", "pearson", "neyman"]
     sessions = []
     for met in mets:
         for kind in ("sup", "semi", "knn", "unsup"):
             for use_pre in ((False, True) if kind != "knn" else (False,)):
-                if not thorough and rng.random() < 0.45:
-                    continue
+                if not thorough and rng.random() < 0.45 and not (met in ("pearson", "neyman") and use_pre):
+                    continue        # (the non-symmetric identifiers always go through a pre-computed - hence non-symmetric - matrix)
                 fd = rng.random() < 0.6
                 sessions.append((build_session(rng, tmp, kind, met, use_pre, fd), {"kind": kind, "metric": met, "pre": use_pre, "fresh_default_args": fd}))
     rej = SC.judge(rep, sessions, "c19", None)
